@@ -138,103 +138,129 @@ from .structure import uni_invs   # noqa: E402
 
 
 class AdjEnv:
-    """spec vocabulary of load_adj_dict for one adjacency argument `a`:
-         keys K (dict order), row(k); created(k, j) = the link made for the j-th entry of row(k) (existential witness family,
-         with inverse cell_key / cell_idx); M(p) = the vertices mentioned while processing the key prefix p, in order;
-         inc_rows(x, p) / inc_row(x, k, q) = the created links incident to x, in creation order"""
+    """spec vocabulary of load_adj_dict for one adjacency argument `a` (all heap-independent, defined by snoc recursion):
+         K = keys in dict order, row(k);
+         M(p)            the vertices mentioned while processing the key prefix p: k1, row(k1)..., k2, row(k2)...
+         SRCS(p), DSTS(p) the listed pairs, flattened in input order (sources: each key repeated once per entry of its row)
+         gsrc(l), gdst(l) the pair a created link was made for (ghost attributes of the link, fixed at creation)
+         MS(C), MD(C)    map gsrc / gdst over the sequence C of created links (creation order)
+         INC(C, x)       the links of C incident to x, in creation order"""
 
     def __init__(self, a):
         tag = str(a)
         self.a = a
         self.K = T.adj_keys(a)
-        self.created = z3.Function(f"created@{tag}", Ref, Int, Ref)
-        self.cell_key = z3.Function(f"cell_key@{tag}", Ref, Ref)
-        self.cell_idx = z3.Function(f"cell_idx@{tag}", Ref, Int)
-        self.M_ = z3.Function(f"mention@{tag}", RSeq, RSeq)
-        self.inck_ = z3.Function(f"inc_rows@{tag}", Ref, RSeq, RSeq)
-        self.incq_ = z3.Function(f"inc_row@{tag}", Ref, Ref, RSeq, RSeq)
+        self.gsrc = z3.Function(f"adj_src@{tag}", Ref, Ref)
+        self.gdst = z3.Function(f"adj_dst@{tag}", Ref, Ref)
+        self.MS = z3.Function(f"adj_map_src@{tag}", RSeq, RSeq)
+        self.MD = z3.Function(f"adj_map_dst@{tag}", RSeq, RSeq)
+        self.INC = z3.Function(f"adj_incident@{tag}", RSeq, Ref, RSeq)
+        self.M_ = z3.Function(f"adj_mention@{tag}", RSeq, RSeq)
+        self.SRCS_ = z3.Function(f"adj_sources@{tag}", RSeq, RSeq)
+        self.DSTS_ = z3.Function(f"adj_targets@{tag}", RSeq, RSeq)
+        self.SRCR_ = z3.Function(f"adj_row_sources@{tag}", Ref, RSeq, RSeq)
 
     def row(self, k):
         return T.adj_row(self.a, k)
-
-    def is_created(self, l):
-        return self.created(self.cell_key(l), self.cell_idx(l)) == l
-
-    def done(self, l, p, k=None, q=None):
-        """l is one of the links created while processing the key prefix p (and the prefix q of row(k))"""
-        ck, cj = self.cell_key(l), self.cell_idx(l)
-        full = And(Mem(p, ck), cj >= 0, cj < Len(self.row(ck)))
-        if k is None:
-            return And(self.is_created(l), full)
-        return And(self.is_created(l), Or(full, And(ck == k, cj >= 0, cj < Len(q))))
 
     def mentioned(self, p, k=None, q=None):
         m = self.M_(p)
         return m if k is None else cat(m, unit(k), q)
 
-    def incident(self, x, p, k=None, q=None):
-        r = self.inck_(x, p)
-        return r if k is None else cat(r, self.incq_(x, k, q))
+    def sources(self, p, k=None, q=None):
+        return self.SRCS_(p) if k is None else cat(self.SRCS_(p), self.SRCR_(k, q))
 
-    def defs_outer(self, p):
-        out = [self.M_(EMPTY()) == EMPTY()]
-        parts = T._flat(p)
-        if parts and T._is_unit(parts[-1]) and not T._is_empty(p):
-            k = parts[-1].arg(0)
-            head = cat(*parts[:-1])
-            out.append(self.M_(p) == cat(self.M_(head), unit(k), self.row(k)))
+    def targets(self, p, k=None, q=None):
+        return self.DSTS_(p) if k is None else cat(self.DSTS_(p), q)
+
+    @staticmethod
+    def _snoc(sq):
+        parts = T._flat(sq)
+        if parts and T._is_unit(parts[-1]) and not T._is_empty(sq):
+            return cat(*parts[:-1]), parts[-1].arg(0)
+        return None
+
+    def defs_input(self, p, k=None, q=None):
+        """defining equations of the input functions for the prefixes at hand (ground)"""
+        out = [self.M_(EMPTY()) == EMPTY(), self.SRCS_(EMPTY()) == EMPTY(), self.DSTS_(EMPTY()) == EMPTY()]
+        sp = self._snoc(p)
+        if sp:
+            head, kk = sp
+            out += [self.M_(p) == cat(self.M_(head), unit(kk), self.row(kk)),
+                    self.SRCS_(p) == cat(self.SRCS_(head), self.SRCR_(kk, self.row(kk))),
+                    self.DSTS_(p) == cat(self.DSTS_(head), self.row(kk))]
+        if k is not None:
+            out.append(self.SRCR_(k, EMPTY()) == EMPTY())
+            sq = self._snoc(q)
+            if sq:
+                head, _w = sq
+                out.append(self.SRCR_(k, q) == snoc(self.SRCR_(k, head), k))
         return out
 
-    def defs_outer_x(self, p):
-        """schemas (per vertex x): inc_rows by snoc recursion"""
-        sch = [Schema("inc_rows-nil", (Ref,), lambda x: self.inck_(x, EMPTY()) == EMPTY())]
-        parts = T._flat(p)
-        if parts and T._is_unit(parts[-1]) and not T._is_empty(p):
-            k = parts[-1].arg(0)
-            head = cat(*parts[:-1])
-            sch.append(Schema("inc_rows-snoc", (Ref,), lambda x: self.inck_(x, p) == cat(self.inck_(x, head), self.incq_(x, k, self.row(k)))))
-        return sch
+    def defs_created(self, C):
+        """defining equations of MS / MD / INC for the sequence C = C0 ++ [l1, ..., ln] (n >= 0 trailing units)
+        -> (ground facts, schemas over x)"""
+        g = [self.MS(EMPTY()) == EMPTY(), self.MD(EMPTY()) == EMPTY()]
+        sch = [Schema("incident-nil", (Ref,), lambda x: self.INC(EMPTY(), x) == EMPTY())]
+        cur = C
+        for _i in range(4):
+            sp = self._snoc(cur)
+            if not sp:
+                break
+            head, l = sp
+            g += [self.MS(cur) == snoc(self.MS(head), self.gsrc(l)), self.MD(cur) == snoc(self.MD(head), self.gdst(l))]
+            sch.append(Schema("incident-snoc", (Ref,), lambda x, cur=cur, head=head, l=l: self.INC(cur, x) == If(
+                Or(x == self.gsrc(l), x == self.gdst(l)), snoc(self.INC(head, x), l), self.INC(head, x))))
+            # the same equation at the level of counting (the solver only has congruence for cnt)
+            sch.append(Schema("incident-snoc-count", (Ref, Ref), lambda x, y, cur=cur, head=head, l=l: Cnt(self.INC(cur, x), y) == If(
+                Or(x == self.gsrc(l), x == self.gdst(l)), Cnt(self.INC(head, x), y) + T.b2i(T.eq(y, l)), Cnt(self.INC(head, x), y)),
+                pair_from=("adj_incident@",)))
+            cur = head
+        return g, sch
 
-    def defs_inner_x(self, k, q):
-        sch = [Schema("inc_row-nil", (Ref,), lambda x: self.incq_(x, k, EMPTY()) == EMPTY())]
-        parts = T._flat(q)
-        if parts and T._is_unit(parts[-1]) and not T._is_empty(q):
-            w = parts[-1].arg(0)
-            head = cat(*parts[:-1])
-            l = self.created(k, Len(head))
-            sch.append(Schema("inc_row-snoc", (Ref,), lambda x: self.incq_(x, k, q) == If(Or(x == k, x == w), snoc(self.incq_(x, k, head), l), self.incq_(x, k, head))))
-        return sch
+
+def members_of(name, seq, fn, extra_units=()):
+    """schema over the references whose count in `seq` is mentioned (plus the unit elements of seq)"""
+    parts = tuple(t for t in T._flat(seq) if not (T._is_unit(t) or T._is_empty(t) or T._is_concat(t)))
+    units = tuple(t.arg(0) for t in T._flat(seq) if T._is_unit(t)) + tuple(extra_units)
+    return Schema(name, (Ref,), fn, trigger=("cnt-args", parts, units))
 
 
-def adj_post_state(A: AdjEnv, base: State_t, ct, u, Tcls, p, k=None, q=None):
-    """the heap after processing key prefix p (and row prefix q of key k), as updates of `base` (the heap right after `Universe()`)"""
+def adj_post_state(A: AdjEnv, base, ct, u, C, ment):
+    """the heap after creating the links C for the mentioned vertices `ment`, as updates of `base` (the heap right after
+    `Universe()`): first-mention membership, one more universe for every mentioned vertex, the created links appended to the
+    link lists of their ends in creation order, nothing else"""
     st = base.copy()
-    ment = A.mentioned(p, k, q)
-    st.write("_vertices", u, T.Dedup(ment))                          # members: first mention order
+    st.write("_vertices", u, T.Dedup(ment))
     st.write_where("_universes", lambda ad: (And(ad[0] != u, Mem(ment, ad[0])), snoc(base.unis(ad[0]), u)))
-    st.write_where("_links", lambda ad: (And(ad[0] != NONE, ct.is_a(ad[0], "Vertex")), cat(base.links(ad[0]), A.incident(ad[0], p, k, q))))
-    st.write_where("_vertices", lambda ad: (A.done(ad[0], p, k, q),
-                                            T.seq_of(A.cell_key(ad[0]), T.Nth(A.row(A.cell_key(ad[0])), A.cell_idx(ad[0])))))
-    st.write_where("_universes", lambda ad: (A.done(ad[0], p, k, q), EMPTY()))
+    st.write_where("_links", lambda ad: (And(ad[0] != NONE, ct.is_a(ad[0], "Vertex")), cat(base.links(ad[0]), A.INC(C, ad[0]))))
+    st.write_where("_vertices", lambda ad: (Mem(C, ad[0]), T.seq_of(A.gsrc(ad[0]), A.gdst(ad[0]))))
+    st.write_where("_universes", lambda ad: (Mem(C, ad[0]), EMPTY()))
     return st
 
 
-State_t = object
-
-
-def created_facts(A: AdjEnv, S, ct, Tcls, p, k=None, q=None):
-    """properties of the links created so far (schemas over l): new objects of the requested class, unknown to the old heap"""
+def created_facts(A: AdjEnv, S, ct, Tcls, C, ment, u, Lw):
+    """what is known about the created links C (S = heap at function entry; u, Lw: the new universe and its law set)"""
     def f1(l):
-        return Implies(A.done(l, p, k, q), And(l != NONE, T.cls_of(l) == Tcls, Not(S.read("dyn_has", l, z3.StringVal("?")))))
+        return Implies(Mem(C, l), And(
+            l != NONE, T.cls_of(l) == Tcls, Cnt(C, l) == 1,
+            A.gsrc(l) != NONE, ct.is_a(A.gsrc(l), "Vertex"), A.gdst(l) != NONE, ct.is_a(A.gdst(l), "Vertex"),
+            Mem(ment, A.gsrc(l)), Mem(ment, A.gdst(l)),
+            Mem(A.INC(C, A.gsrc(l)), l), Mem(A.INC(C, A.gdst(l)), l)))
 
     def f2(x, l):
-        return Implies(A.done(l, p, k, q), And(Not(Mem(S.links(x), l)), Not(Mem(S.ends(x), l)), Not(Mem(S.unis(x), l)), l != x if False else BoolVal(True)))
-    return [Schema("created-links-are-of-the-requested-class", (Ref,), f1),
-            Schema("created-links-are-new", (Ref, Ref), f2, trigger=("product",))]
+        return And(Cnt(A.INC(C, x), l) <= 1,
+                   Implies(Mem(A.INC(C, x), l), And(Mem(C, l), Or(x == A.gsrc(l), x == A.gdst(l)))))
+
+    def f3(x, l):
+        # nothing that existed at entry refers to a created link (x ranges over the objects that existed at entry)
+        return Implies(And(Mem(C, l), x != u, x != Lw, Not(Mem(C, x))), And(Not(Mem(S.links(x), l)), Not(Mem(S.ends(x), l)), Not(Mem(S.unis(x), l))))
+    return [members_of("created-links:-class,-distinct,-ends-mentioned,-listed-at-both-ends", C, f1),
+            Schema("incident-lists-hold-created-links-once", (Ref, Ref), f2, pair_from=("adj_incident@",)),
+            Schema("created-links-are-new", (Ref, Ref), f3, pair_from=("_links@", "_vertices@", "_universes@"))]
 
 
-# DRAFT (not registered for any property): the obligations of the two nested creation loops do not discharge within the solver
-# budgets yet (existential family of created links + three fold specifications); see DESIGN.md 12.5.  C11 / C20 are not claimed.
+# DRAFT (not registered for any property yet)
 @contract("adjlist.load_adj_dict", "adjdict:adj, linktype:cls<=TwoEndedLink=UnDirectedEdge", props=("C11-draft",), shards=6)
 def _(c):
     S, ct, a, Tcls = c.S, c.ct, c.adjdict, c.linktype
@@ -243,12 +269,14 @@ def _(c):
     uni_invs(c)
     c.assume_inv(I1_sym(S, ct))
     c.assume_inv(TY_laws(S, ct))
+    c.requires(Not(T.sub(Tcls, ct.c("Vertex"))), "link-type-is-not-a-vertex-type")
     c.assume_inv(Schema("keys-are-distinct-vertices", (Ref,), lambda x: And(Cnt(A.K, x) <= 1, Implies(Mem(A.K, x), And(x != NONE, ct.is_a(x, "Vertex"))))))
     c.assume_inv(Schema("rows-hold-vertices", (Ref, Ref), lambda k, w: Implies(And(Mem(A.K, k), Mem(A.row(k), w)), And(w != NONE, ct.is_a(w, "Vertex"))),
                         pair_from=("adj_row",)))
     o = c.normal()
     u = o.fresh("Universe", "uni")
     Lw = o.fresh("UniverseLaws", "laws")
+    C = c.ghost("C", RSeq)                      # the created links, in creation order
     # Universe(): empty, with its own fresh law set
     base = o.post
     base.write("_links", u, EMPTY())
@@ -257,40 +285,56 @@ def _(c):
     base.write("_universes", Lw, EMPTY())
     base.write("_laws", u, Lw)
     base.write("_applies_to", Lw, u)
-    o.o.post = adj_post_state(A, base, ct, u, Tcls, A.K)
+    ment = A.mentioned(A.K)
+    o.o.post = adj_post_state(A, base, ct, u, C, ment)
     o.result(VRef(u, "Universe"))
-    for sch in created_facts(A, S, ct, Tcls, A.K):
+    # exactly one link per listed pair, key -> value, in input order
+    o.fact(A.MS(C) == A.sources(A.K))
+    o.fact(A.MD(C) == A.targets(A.K))
+    for sch in created_facts(A, S, ct, Tcls, C, ment, u, Lw):
         o.fact_schema(sch)
-    o.loose("_uid", lambda new, old, *_: [Schema("uids-of-old-objects-unchanged", (Ref,), lambda x: Implies(
-        And(x != u, x != Lw, Not(A.done(x, A.K))), new(x) == old(x)), trigger=("_uid",))])
+    old_obj = lambda x: And(x != u, x != Lw, Not(Mem(C, x)))
+    o.loose("_uid", lambda new, old, *_: [Schema("uids-of-old-objects-unchanged", (Ref,), lambda x: Implies(old_obj(x), new(x) == old(x)), trigger=("_uid",))])
     for f_ in ("_mixed_links", "_cycles", "_multipath", "_multiverse", "_edge_whitelist"):
         o.loose(f_, lambda new, old, *_, f_=f_: [Schema("only-new-laws-written", (Ref,), lambda x: Implies(x != Lw, new(x) == old(x)), trigger=(f_,))])
     o.loose("memo_has", lambda new, old, *_: [Schema("memo-only-shrinks", MEMO_KEY, lambda v, d, uu, f: Implies(new(v, d, uu, f), old(v, d, uu, f)), trigger=("memo_has",))])
     stats_monotone(o)
     o.loose("dyn_has", lambda new, old, *_: [Schema("attributes-of-old-objects-unchanged", (Ref, T.Str), lambda x, n: Implies(
-        And(x != u, x != Lw, Not(A.done(x, A.K))), new(x, n) == old(x, n)), trigger=("dyn_has",))])
+        old_obj(x), new(x, n) == old(x, n)), trigger=("dyn_has",))])
     o.loose("dyn_val", lambda new, old, *_: [Schema("attribute-values-of-old-objects-unchanged", (Ref, T.Str), lambda x, n: Implies(
-        And(x != u, x != Lw, Not(A.done(x, A.K))), new(x, n) == old(x, n)), trigger=("dyn_val",))])
+        old_obj(x), new(x, n) == old(x, n)), trigger=("dyn_val",))])
     o.loose("init_count", lambda new, old, *_: [])
     o.loose("init_args", lambda new, old, *_: [])
 
 
 def adj_loop_inv(L, k=None, q=None):
-    """shared invariant of the two loops of load_adj_dict (k, q: the key being processed and the prefix of its row)"""
+    """shared invariant of the two loops of load_adj_dict (k, q: the key being processed and the processed prefix of its row)"""
     ct = L.engine.ct
     a, Tcls = L.args["adjdict"].term, L.args["linktype"].term
     A = AdjEnv(a)
     u = L.env["uni"].term
     S0 = L.pre                                  # heap at function entry
     if k is None:
-        E, p = L.st, L.prefix                   # heap right after Universe()
+        E, p = L.st, L.prefix                   # E: heap right after Universe()
         L.engine._adj_base = E
     else:
         E = L.engine._adj_base
         p = L.env["$P"].term
-    st = adj_post_state(A, E, ct, u, Tcls, p, k, q)
+    # the ghost sequence of created links: existential at the loop head, extended by this iteration's allocations at its end
+    if L.phase == "entry":
+        C = EMPTY() if k is None else L.env["$C"].term
+    elif L.phase in ("assume", "exit"):
+        C = T.fresh("created", RSeq)
+    else:
+        C = L.env["$C"].term
+        mark = L.engine._loop_alloc_mark.get(id(L.ls), 0) if hasattr(L, "ls") else None
+        news = [r for (r, _c, kind) in (L.path.allocs[mark:] if mark is not None else []) if kind == "obj"]
+        for r in news:
+            C = snoc(C, r)
+    ment = A.mentioned(p, k, q)
+    st = adj_post_state(A, E, ct, u, C, ment)
     Lw = E.laws(u)
-    old_obj = lambda x: And(x != u, x != Lw, Not(A.done(x, p, k, q)))
+    old_obj = lambda x: And(x != u, x != Lw, Not(Mem(C, x)))
     loose = [
         Loose("_uid", lambda new, old, *_: [Schema("uids-of-old-objects-unchanged", (Ref,), lambda x: Implies(old_obj(x), new(x) == S0.read("_uid", x)), trigger=("_uid",))]),
         Loose("memo_has", lambda new, old, *_: [Schema("memo-only-shrinks", MEMO_KEY, lambda v, d, uu, f: Implies(new(v, d, uu, f), S0.memo_has(v, d, uu, f)), trigger=("memo_has",))]),
@@ -299,29 +343,23 @@ def adj_loop_inv(L, k=None, q=None):
         Loose("dyn_val", lambda new, old, *_: [Schema("attribute-values-of-old-objects-unchanged", (Ref, T.Str), lambda x, n: Implies(old_obj(x), new(x, n) == S0.read("dyn_val", x, n)), trigger=("dyn_val",))]),
         Loose("init_count", lambda new, old, *_: []), Loose("init_args", lambda new, old, *_: []),
     ]
-    inc = lambda x: A.incident(x, p, k, q)
-    schemas = created_facts(A, S0, ct, Tcls, p, k, q) + [
-        Schema("incident-links-are-created-here", (Ref, Ref), lambda x, l: Implies(Mem(inc(x), l), And(
-            A.done(l, p, k, q), Or(x == A.cell_key(l), x == T.Nth(A.row(A.cell_key(l)), A.cell_idx(l))))), pair_from=("inc_row", "inc_rows")),
-        Schema("incident-links-not-repeated", (Ref, Ref), lambda x, l: Cnt(inc(x), l) <= 1, pair_from=("inc_row", "inc_rows")),
-        Schema("mentioned-are-vertices", (Ref,), lambda x: Implies(Mem(A.mentioned(p, k, q), x), And(x != NONE, ct.is_a(x, "Vertex"), x != u))),
+    schemas = created_facts(A, S0, ct, Tcls, C, ment, u, Lw) + [
+        Schema("mentioned-are-vertices", (Ref,), lambda x: Implies(Mem(ment, x), And(x != NONE, ct.is_a(x, "Vertex"), x != u))),
     ]
-    gdefs = A.defs_outer(p)
-    sdefs = A.defs_outer_x(p)
-    define = {}
+    gdefs = A.defs_input(p, k, q)
+    g2, sdefs = A.defs_created(C)
+    gdefs = gdefs + g2
+    if L.phase == "check":
+        # ghost code: a link created in this iteration records the pair it was made for = its actual ends
+        cur = L.cur if L.cur is not None else L.path.st
+        for r in news:
+            gdefs = gdefs + [A.gsrc(r) == cur.v1(r), A.gdst(r) == cur.v2(r)]
+    define = {"$C": VSeq(C)}
     if k is None:
         define["$P"] = VSeq(p)
-    else:
-        sdefs = sdefs + A.defs_inner_x(k, q)
-        if L.phase == "check":
-            # witness for the existential family: the link this iteration created is created(k, |q0|)
-            news = [r for (r, _c, kind) in L.path.allocs if kind == "obj"]
-            if news:
-                l_new = news[-1]
-                q0 = cat(*T._flat(q)[:-1]) if T._is_concat(q) or T._is_unit(q) else q
-                j = Len(q0)
-                gdefs = gdefs + [A.created(k, j) == l_new, A.cell_key(l_new) == k, A.cell_idx(l_new) == j]
-    return LoopInv(state=st, loose=loose, schemas=schemas, ground_defs=gdefs, defs=sdefs, define=define)
+    facts = [A.MS(C) == A.sources(p, k, q), A.MD(C) == A.targets(p, k, q)]
+    return LoopInv(state=st, loose=loose, schemas=schemas, facts=facts, ground_defs=gdefs, defs=sdefs, define=define,
+                   supersedes=(k is not None))
 
 
 @REG.loop("adjlist.load_adj_dict", 0)
